@@ -243,6 +243,15 @@ pub fn main_for(prop: Prop) {
         };
         if ill_case {
             knobs.ill = 1000;
+            // two of three ill cases: one dedicated function around a typing rule of the lowering
+            // pass where two same-named things differ only in type (cycling through all rules)
+            let k = ci / 3;
+            if prop == Prop::C24 && k % 3 != 2 {
+                knobs.near = Some((k - k / 3, true));
+            }
+        } else if prop == Prop::C24 && ci % 6 == 3 {
+            // control: the same templates with equal types have to be accepted and are executed
+            knobs.near = Some((ci / 6, false));
         }
         // plausible-looking forms the front end has to reject or handle (C24 all the time, C22 rarely)
         if (prop == Prop::C24 && ci % 4 == 1) || (prop == Prop::C22 && ci % 16 == 5) {
@@ -263,6 +272,9 @@ pub fn main_for(prop: Prop) {
         }
         let ill_kind = g.ill_kind;
         let stats = g.stats.clone();
+        let nstats = stats.len();
+        let control = matches!(g.k.near, Some((_, false)));
+        let control_kind = g.k.near.map(|(k, _)| super::gen::NEAR_KINDS[k % super::gen::NEAR_KINDS.len()]).unwrap_or("");
         rec.begin_case();
         rec.count(&format!("depth:{depth}"));
         rec.count(if ill_case { "stream:ill" } else { "stream:well-typed" });
@@ -284,6 +296,14 @@ pub fn main_for(prop: Prop) {
                 }
                 if !ill_case && ill_kind.is_none() && !res.accepted && res.machine.is_none() {
                     rec.count("well-typed-stream:rejected");
+                    if control && nstats == 1 {
+                        // a typing-rule template with equal types is well typed: the generator is wrong
+                        rec.count(&format!("control-rejected:{control_kind}"));
+                        rec.notes.push(format!("typing-rule control `{control_kind}` was rejected by the real front end"));
+                    }
+                }
+                if ill_case && ill_kind.is_some() && res.accepted {
+                    rec.count(&format!("ill-accepted:{}", ill_kind.unwrap_or("")));
                 }
             }
         }
